@@ -51,6 +51,8 @@ var c08Imports = []string{
 	"import \"example.com/lib/a\"\nimport bb \"example.com/lib/b\"\nimport \"other.io/q\"\n",
 	"import (\n\t// about a\n\t\"example.com/lib/a\" // trailing a\n\tbb \"example.com/lib/b\"\n\t_ \"example.com/lib/v\"\n\n\t// group two\n\t\"other.io/q\"\n)\n",
 	"import (\n\t\"example.com/lib/a\"\n)\n\nimport (\n\tbb \"example.com/lib/b\"\n\t\"other.io/q\"\n)\n",
+	// import paths with elements that end in "vendor" without being a vendor directory
+	"import (\n\t\"example.com/govendor/ctx\"\n\t\"example.com/lib/a\"\n\tbb \"example.com/lib/b\"\n\tvcfg \"xvendor/cfg\" // aliased\n\n\t\"other.io/q\"\n)\n",
 }
 
 // c08Bodies: declarations with qualified identifiers and comments / line breaks around the dot.
@@ -147,7 +149,11 @@ func checkC08(c *Ctx) {
 	for _, imp := range c08Imports {
 		for _, body := range c08Bodies() {
 			// every imported package is used (an unused import is rightly removed by import management)
-			src := canonical("package app\n\n" + imp + "\n" + body + "\nvar _ = []interface{}{a.V, bb.W, q.Default}\n")
+			trailer := "a.V, bb.W, q.Default"
+			if strings.Contains(imp, "govendor") {
+				trailer += ", ctx.Background(), vcfg.Default"
+			}
+			src := canonical("package app\n\n" + imp + "\n" + body + "\nvar _ = []interface{}{" + trailer + "}\n")
 			if src != "" {
 				sources = append(sources, src)
 			}
